@@ -117,7 +117,14 @@ class DynamicLengthField(Field):
 
         decode_state.cursor_byte_position = decode_state.origin_byte_position + self.offset
         for _ in range(n):
+            item_pos = decode_state.cursor_byte_position
             result.append(self.structure.decode_from_pdu(decode_state))
+            if decode_state.cursor_byte_position <= item_pos:
+                # the number of items is taken from the message, so
+                # items which do not consume any data could be
+                # repeated (almost) forever
+                raise DecodeError(f"An item of dynamic length field {self.short_name} "
+                                  f"does not consume any data")
 
         decode_state.origin_byte_position = orig_origin
 
